@@ -203,6 +203,19 @@ def case(ctx):
                     break
         c1, e1 = call(lambda: B in A)
         c2, e2 = call(lambda: TB in TA)
+        # the same two objects, queried (caches warm), then transformed in place with the rotation
+        # applied last: R(S p + R^-1 d) = R S p + d
+        cth, sth = math.cos(theta), math.sin(theta)
+        dxp, dyp = cth * dx + sth * dy, -sth * dx + cth * dy
+        for obj in (A, B):
+            if hasattr(obj, "jordans"):
+                obj.scale(s, s)
+                obj.move(dxp, dyp)
+                obj.rotate(theta)
+        c3, e3 = call(lambda: B in A)
+        if e1 is None and (e3 is not None or bool(c3) != bool(c1)):
+            case.violate("after transforming the two shapes in place (scale, move, rotate) `B in A` is %r, before it was %r (scale %.3g, angle %.3f)" % (
+                exc_text(e3) if e3 else c3, c1, s, theta))
         case.count("similarity:containment-judged")
         if e1 is None:
             if e2 is not None:
